@@ -98,6 +98,9 @@ class RecursiveParser {
     bool isAtEnd();
     void consume(TokenType type, const std::string &message);
     void error(const std::string &message);
+    // reports "Nesting too deep" instead of overflowing the C++ stack; called
+    // at the recursion points of the statement, expression and type parsers
+    void checkNesting();
 
     // 位置情報設定のヘルパー
     void setLocation(ASTNode *node, const Token &token);
